@@ -1,10 +1,10 @@
 #!/usr/bin/env python3
 """tools/run_seeded.py [<id> ...] [--tier quick] [--only name]
 
-For every /verif/seeded/<id>/<name>/patch.diff: apply it to /repo's working tree
-(git apply), run ./check <id> (plus the ids listed under "also" in meta.json), record
-the exit codes, and undo with `git -C /repo checkout -- .`. Writes seeded/RESULTS.md
-and seeded/results.json. /repo must be clean when this starts; nothing is committed.
+For every /verif/seeded/<id>/<name>/patch.diff: apply it to a scratch clone of /repo
+(HEAD + the patch; /repo itself is never touched), run ./check <id> with VERIF_REPO
+pointing at the clone (plus the ids listed under "also" in meta.json) and record the exit
+codes. Writes seeded/RESULTS.md and seeded/results.json.
 """
 import json, os, subprocess, sys, time, glob
 
@@ -27,8 +27,7 @@ def main():
         if a == "--only":
             only = sys.argv[i + 1]
             args = [x for x in args if x != only]
-    if sh("git -C /repo status --porcelain").stdout.strip():
-        sys.exit("/repo is not clean")
+    clone = os.path.join("/dev/shm" if os.path.isdir("/dev/shm") else "/tmp", "repo-seeded-%d" % os.getpid())
     resfile = os.path.join(SEEDED, "results.json")
     results = json.load(open(resfile)) if os.path.exists(resfile) else {}
     ran = []
@@ -43,19 +42,20 @@ def main():
         mp = os.path.join(os.path.dirname(d), "meta.json")
         if os.path.exists(mp):
             meta = json.load(open(mp))
-        ap = sh("git -C /repo apply --whitespace=nowarn %s" % d)
+        sh("rm -rf %s && git clone -q --no-hardlinks /repo %s" % (clone, clone))
+        ap = sh("git -C %s apply --whitespace=nowarn %s" % (clone, d))
         if ap.returncode != 0:
             results["%s/%s" % (pid, name)] = {"applies": False, "error": ap.stdout[-400:]}
-            sh("git -C /repo checkout -- . && git -C /repo clean -fdq")
+            sh("rm -rf %s" % clone)
             continue
         entry = {"applies": True, "summary": meta.get("summary", ""), "checks": {}}
         env = dict(os.environ, GOFLAGS="-mod=mod", GOPROXY="off", GOSUMDB="off", GOTOOLCHAIN="local")
-        b = sh("cd /repo && go build ./...", env=env)
+        b = sh("cd %s && go build ./..." % clone, env=env)
         entry["compiles"] = b.returncode == 0
         for cid in [pid] + meta.get("also", []):
             t0 = time.time()
             ran.append(cid)
-            r = sh("cd %s && ./check %s --tier %s" % (ROOT, cid, tier))
+            r = sh("cd %s && VERIF_REPO=%s VERIF_EVIDENCE_DIR=%s VERIF_REPLAYS_DIR=%s ./check %s --tier %s" % (ROOT, clone, clone + "-evidence", clone + "-evidence/replays", cid, tier))
             viol = [l for l in r.stdout.splitlines() if l.startswith("VIOLATION")]
             entry["checks"][cid] = {"exit": r.returncode, "violation": viol[:1], "wall_s": round(time.time() - t0, 1), "tier": tier}
             print("%s/%s -> %s exit %d (%.0fs)" % (pid, name, cid, r.returncode, time.time() - t0), flush=True)
@@ -65,15 +65,9 @@ def main():
                 rd = os.path.join(ROOT, "replays", cid)
                 if rp.startswith(rd):
                     sh("rm -rf %s" % os.path.join(rd, os.path.relpath(rp, rd).split(os.sep)[0]))
-        sh("git -C /repo checkout -- . && git -C /repo clean -fdq")
+        sh("rm -rf %s %s-evidence" % (clone, clone))
         results["%s/%s" % (pid, name)] = entry
         json.dump(results, open(resfile, "w"), indent=1, sort_keys=True)
-    # evidence files were rewritten by mutated runs: regenerate them on the clean tree
-    if "--no-restore" not in sys.argv:
-        touched = sorted({c for k, e in results.items() if e.get("applies") for c in e["checks"]} & set(ran))
-        for cid in touched:
-            r = sh("cd %s && ./check %s --tier quick" % (ROOT, cid))
-            print("restore evidence %s -> exit %d" % (cid, r.returncode), flush=True)
     lines = ["# Seeded changes and the checks that catch them", "",
              "Each row: a deliberately broken variant of relic (compiles, passes relic's own test suite) and the exit code of the listed checks with the patch applied (1 = VIOLATION reported, 0 = missed, 2 = inconclusive).", "",
              "| seeded change | what it breaks | checks (exit) |", "|---|---|---|"]
